@@ -8,6 +8,7 @@ import OpcuaModel.Model.SrvRobust
     safe <state> | <tok> | <req…>            → 0 | 1
     browsecls <refTypeId> <inc 0|1> <other 0|1> → plain | loop
     interval <int64 of time.Duration(ms)>    → subms | small | huge
+    revise <ms>                              → revised publishing interval in ms
     signedchunk <chunkLen> <sigLen>          → <out>
     hang <cap> <respBytes> <n>               → served | blocked     (a reading client's request after n
                                                 responses of respBytes owed to a client that does not read)
@@ -35,6 +36,10 @@ def handle : List String → String
   | ["interval", d] =>
     match d.toInt? with
     | some k => (match intervalOf k with | .subMs => "subms" | .small => "small" | .huge => "huge")
+    | none => "bad-op"
+  | ["revise", ms] =>
+    match ms.toInt? with
+    | some k => toString (reviseMs k)
     | none => "bad-op"
   | ["signedchunk", l, s] =>
     match l.toNat?, s.toNat? with
